@@ -70,6 +70,10 @@ class FaultBackend:
             if self.mode == 'crash':
                 self.dead = True
                 raise Killed()
+            if self.mode == 'fail_late':
+                # the failing call takes its time (retries, time-outs) before it gives up: everything else may have finished by then
+                import time as _time
+                _time.sleep(0.15)
             self.failed_names.add(name)
             raise RuntimeError('injected permanent failure')
         self.trace.append((kind, name))
@@ -400,7 +404,10 @@ def run_history(seed, scratch: Path, rep: Report, *, nops, weights, checks, conc
     async def cmd(coro, what):
         """a real command of a legal history must not fail"""
         try:
-            return await coro
+            return await asyncio.wait_for(coro, 120)
+        except (asyncio.TimeoutError, TimeoutError):
+            viol('exception', f'{what} did not return within 120 s (a legal command of a fault-free history hangs)')
+            raise Abort()
         except Exception as e:
             import traceback
             viol('exception', f'{what} raised {type(e).__name__}: {str(e)[:150]}', traceback.format_exc()[-1200:])
@@ -613,7 +620,7 @@ def run_history(seed, scratch: Path, rep: Report, *, nops, weights, checks, conc
                 # one delete request fails for good during clean: if clean still reports success the family must be exact
                 fbk = FaultBackend(world.backend, 'fail', rng.randint(0, 2))
                 try:
-                    await world.clean(user, backend=fbk)
+                    await asyncio.wait_for(world.clean(user, backend=fbk), 60)
                     failed = False
                 except Exception:
                     failed = True
@@ -639,7 +646,7 @@ def run_history(seed, scratch: Path, rep: Report, *, nops, weights, checks, conc
                 names = rng.sample(own, 1)
                 fbk = FaultBackend(world.backend, 'crash', rng.randint(0, 4))
                 try:
-                    await world.delete(user, names, backend=fbk)
+                    await asyncio.wait_for(world.delete(user, names, backend=fbk), 60)
                 except BaseException:
                     pass
                 for _ in range(2000):
@@ -670,9 +677,9 @@ def run_history(seed, scratch: Path, rep: Report, *, nops, weights, checks, conc
                 names = rng.sample(own, 1) if what == 'delete' else []
                 try:
                     if what == 'clean':
-                        await world.clean(user, backend=fb)
+                        await asyncio.wait_for(world.clean(user, backend=fb), 60)
                     else:
-                        await world.delete(user, names, backend=fb)
+                        await asyncio.wait_for(world.delete(user, names, backend=fb), 60)
                     failed = False
                 except Exception:
                     failed = True
@@ -701,17 +708,28 @@ def run_history(seed, scratch: Path, rep: Report, *, nops, weights, checks, conc
                 _, locs = await cmd(world.snapshot(user, src_dir, files, backend=dry, record=False), 'snapshot')
                 world.orphans.update(locs)
                 nmissing = len(set(dry.objects) - set(world.backend.objects)) - 1     # chunk uploads before the snapshot object
-                fb = FaultBackend(world.backend, 'crash', rng.randint(0, max(0, nmissing)))
+                late = rng.random() < 0.35
+                fb = FaultBackend(world.backend, 'fail_late' if late else 'crash', rng.randint(0, max(0, nmissing)))
+                snaps_before = {n for n in world.backend.objects if n.startswith('snapshots/')}
                 try:
-                    await world.snapshot(user, src_dir, files, backend=fb, record=False)
+                    await asyncio.wait_for(world.snapshot(user, src_dir, files, backend=fb, record=False), 60)
                 except BaseException:
                     pass
+                if late:
+                    # one upload failed for good after everything else had finished: the command ends there (with the error)
+                    fb.dead = True
                 for _ in range(2000):          # calls that were in flight at the kill may still land
                     if not fb.inflight:
                         break
                     await asyncio.sleep(0.001)
                 await asyncio.sleep(0.005)
-                descr.append(['interrupted-snapshot', user['name']])
+                if late:
+                    lost = [n for n in fb.failed_names if n.startswith('data/') and n not in world.backend.objects]
+                    published = {n for n in world.backend.objects if n.startswith('snapshots/')} - snaps_before
+                    if lost and published:
+                        viol('referenced_chunk_missing', 'a snapshot was published although the upload of one of its chunks had failed for good '
+                                                         '(the failing call was the last to finish): it is listed but cannot be restored')
+                descr.append(['snapshot-with-late-failing-upload' if late else 'interrupted-snapshot', user['name']])
                 segments.append([world.model_store(), [], []])
                 ops_model, observed = segments[-1][1], segments[-1][2]
                 continue
